@@ -127,12 +127,15 @@ FailedAt(row, pre, t, k) ==
 \* The specified run depends on the call sequence only.  Every call whose observation differs from it is classified;
 \* the scan does not stop at the first difference, so that the CONSEQUENCES of a bookkeeping slip (no release at the
 \* matching last unlock, a surplus unlock accepted) are judged even if the slip itself is not one of the clauses.
-RECURSIVE Scan(_, _, _, _, _)
-Scan(row, s, k, first, acc) ==
-    IF k > Len(row.ops) THEN [at |-> first, failed |-> acc]
-    ELSE LET t == Step(row.w, s, row.ops[k])
-             differs == row.obs[k] # Obs(row.w, t)
-         IN Scan(row, t, k + 1, IF first = 0 /\ differs THEN k ELSE first,
-                 IF differs THEN acc \cup FailedAt(row, s, t, k) ELSE acc)
-Judge(row) == Scan(row, Init0, 1, 0, {})
+RECURSIVE Run(_, _, _, _)
+Run(w, s, ops, k) == IF k > Len(ops) THEN <<>> ELSE LET t == Step(w, s, ops[k]) IN <<t>> \o Run(w, t, ops, k + 1)
+\* at = first differing call; failed = the clauses failed by the EARLIEST differing call that fails any (later ones
+\* are knock-on effects of the same slip and would only blur the signature)
+JudgeWith(row, exp) ==
+    LET D == {k \in 1..Len(row.ops) : row.obs[k] # Obs(row.w, exp[k])}
+        F(k) == FailedAt(row, IF k = 1 THEN Init0 ELSE exp[k - 1], exp[k], k)
+        V == {k \in D : F(k) # {}}
+        Least(S) == CHOOSE k \in S : \A j \in S : k <= j
+    IN [at |-> IF D = {} THEN 0 ELSE Least(D), failed |-> IF V = {} THEN {} ELSE F(Least(V))]
+Judge(row) == JudgeWith(row, Run(row.w, Init0, row.ops, 1))
 =============================================================================
